@@ -149,7 +149,14 @@ func unmarshalTargets() []any {
 			X [1]int `xsel:"a"`
 		}{}, &struct {
 			X *[]**fzS `xsel:"a"`
-		}{}, new(*int), new(int)}
+		}{}, new(*int), new(int),
+		// defined types with supported underlying kinds (convertible, not assignable), as targets, fields, elements
+		new(definedStr), new(definedInt), &[]definedStr{}, &[]*definedF64{}, &struct {
+			ID definedStr  `xsel:"a"`
+			N  *definedInt `xsel:"count(*)"`
+			B  definedBool `xsel:"true()"`
+			L  []definedU8 `xsel:"*"`
+		}{}}
 }
 
 // the child: reads cases "entry\x00input\x00extra\n" (hex-free: inputs are written length-prefixed) from a file
